@@ -68,6 +68,13 @@ def run(ck, rng, tier):
         dist = rng.choice(("gauss", "exp", "int"))
         sc = rng.sample(range(-5 * n, 5 * n), n) if dist == "int" else None
         scores = [float(sc[i]) if sc else (rng.gauss(lab[i], 1.0) if dist == "gauss" else rng.expovariate(1.0) * (1 + lab[i])) for i in range(n)]
+        if c in (9, 10):
+            # many positives (ordinate steps of the curve below 1e-2): 150..190 objects of which 85 % are positive
+            n = rng.randint(150, 190)
+            lab = [float(rng.random() < 0.85) for _ in range(n)]
+            lab[0], lab[1] = 1.0, 0.0
+            scores = [rng.gauss(0.3 * lab[i], 1.0) for i in range(n)]
+            ck.count("roc with more than 100 positives")
         if c in (6, 7, 8):
             # a score equal (or next) to the missing-value code: the code only has a meaning in the TRUTH vector, a score
             # of 99999999 is an ordinary (the largest) score and its object counts like any other
